@@ -91,7 +91,7 @@ def check(ctx):
                             I3, s3 = ctx.interp(), State()
                             h = st.heap[o.obj.id]
                             refc = ctx.call_func(I3, s3, "ref.preprocessing_ref.zero_variance_guard", X, w if weighted else vconst(None), cw, weighted, h["atol"], h["rtol"])
-                            ctx.ob("R-ZEROVAR", f"the zero-variance guard is `variance < atol + |mean| rtol` [{cfg}]", any(N.nf(g) == N.nf(refc.term) for g in gconds), f"guard {[repr(g)[:160] for g in gconds[:1]]} vs reference {repr(refc.term)[:160]}", site, cfg)
+                            ctx.ob("R-ZEROVAR", f"the only input rejected by fit is `variance < atol + |mean| rtol` (of the statistic that is used) [{cfg}]", all(N.nf(g) == N.nf(refc.term) for g in gconds), f"guard(s) {[repr(g)[:160] for g in gconds if N.nf(g) != N.nf(refc.term)][:2] or [repr(g)[:160] for g in gconds[:1]]} vs reference {repr(refc.term)[:160]}", site, cfg)
                     # transform / inverse on the fitted state
                     Xt = arr("Xt", "V", "M")
                     lo = len(I.events)
